@@ -166,7 +166,11 @@ func writeDesc(w io.Writer, desc string, indent int, withDesc bool) (err error) 
 		}
 	}
 	shift := strings.Repeat("  ", indent)
+	// The reader takes a backslash as the start of an escape sequence in
+	// both forms of a string.
+	desc = strings.ReplaceAll(desc, "\\", "\\\\")
 	if strings.ContainsAny(desc, "\n\"") {
+		desc = strings.ReplaceAll(desc, `"`, `\"`)
 		if _, err = w.Write([]byte(shift)); err == nil {
 			shift = "\n" + shift
 			if _, err = w.Write([]byte(`"""`)); err == nil {
